@@ -652,6 +652,12 @@ class Inliner:
         b = norm.bind_call(callee, call, skip)
         if b is None:
             return None
+        # (an argument is ONE evaluation: written out at every read of its parameter only if reading it again gives an interchangeable value)
+        for p_, a_ in b.items():
+            if not (isinstance(a_, ast.Constant) or norm.is_reference(a_) or norm.is_scalar(a_)):
+                occ_ = sum(1 for x in body for n in ast.walk(x) if isinstance(n, ast.Name) and n.id == p_ and isinstance(n.ctx, ast.Load))
+                if occ_ > 1:
+                    return None
         env: dict[str, ast.expr] = {p: copy.deepcopy(a) for p, a in b.items()}
         if star_extra is not None:
             env[star_extra[0]] = star_extra[1]
@@ -805,6 +811,12 @@ class Inliner:
                     for t_, v_ in zip(tg.elts, vals_):
                         env[t_.id] = v_
                     continue
+                if isinstance(tg, ast.Tuple) and isinstance(st.value, ast.Tuple) and len(tg.elts) == len(st.value.elts) \
+                        and all(isinstance(t_, ast.Name) for t_ in tg.elts) and len({t_.id for t_ in tg.elts}) == len(tg.elts) \
+                        and not ({t_.id for t_ in tg.elts} & {n.id for n in ast.walk(st.value) if isinstance(n, ast.Name)}):
+                    # a, b = f(..), g(..): the same as a = f(..); b = g(..) (left to right, no target read on the right)
+                    seq = [ast.copy_location(ast.Assign(targets=[t_], value=v_), st) for t_, v_ in zip(tg.elts, st.value.elts)]
+                    return self._body_expr(seq + list(stmts[i + 1:]), {k: v for k, v in env.items()}, depth + 1)
                 if not isinstance(tg, ast.Name):
                     return None
                 if not norm.is_pure(st.value, _PURE_EXT):
@@ -2648,8 +2660,17 @@ class Canon:
                     if _contains(m, (ast.Raise, ast.For, ast.While, ast.Try, ast.With, ast.Yield, ast.YieldFrom)):
                         return None
                     e = Inliner(lambda call_: None)._body_expr([copy.deepcopy(x) for x in b_], {}, 0)
-                if e is None or not norm.is_pure(e, _PURE_EXT):
+                if e is None:
                     return None
+                if not norm.is_pure(e, _PURE_EXT):
+                    # an accessor that calls something: still one expression evaluated where the accessor was called; its arguments are
+                    # written in, so each must be readable as often as its parameter occurs
+                    for p_, a_ in zip(ps[1:], args):
+                        occ = sum(1 for n in ast.walk(e) if isinstance(n, ast.Name) and n.id == p_)
+                        if occ > 1 and not (isinstance(a_, ast.Constant) or norm.is_reference(a_) or norm.is_scalar(a_)):
+                            return None
+                        if occ <= 1 and not norm.is_pure(a_, _PURE_EXT):
+                            return None
 
                 # (the record's own receiver gets a name of its own: the values written in may mention the caller's `self`)
                 rself = "rec_self__"
